@@ -28,7 +28,10 @@ RULE = ('sets of 2-5 database chemicals (Water, Ethanol, Methanol, Propanol, Hex
         'group_psis buffer, exception kind); derived arrays of __new__ (rs, qs, chem_Qfractions, group_mask) compared with '
         'the model; compiled call compared with py_func at 1e-12 and its x-after with the exact prediction; the direct oracle '
         '(gamma_i = 1 at x_i = 1 to 1e-9, Gibbs-Duhem by central finite differences to 1e-5 relative along every e_a - e_b, '
-        'all permutations n <= 4, no-group => exactly 1, ideal models = 1, x untouched, .f = __call__) is evaluated on every case '
+        'all permutations n <= 4, no-group => exactly 1, ideal models = 1, x untouched, .f = __call__, and one float64 buffer '
+        'rewritten in place between calls at the same T: obj(x,T) = obj.f(x,T,*args) = obj(x.copy(),T) at every step) is evaluated on every case; '
+        'history cases (call / call with a copy / .f / in-place rewrite, 1-2 caller arrays, 3-8 operations on ONE object) are run '
+        'exactly and compared with run_hist '
         'and must hold.  non-trivial = '
         'the group path was taken (object is not the ideal fallback) and the run returned values; distinct = case hash')
 ASSUMPTIONS = [
@@ -230,7 +233,7 @@ PERM_SETS = [['Water', 'Ethanol', 'O2'], ['Water', 'Ethanol', 'Hexane', 'N2'], [
              ['Inert_', 'Water', 'Propanol', 'Octane']]
 
 def gen_cases(rng, tier):
-    n_rand = 170 if tier == 'quick' else 2400
+    n_rand = 150 if tier == 'quick' else 2400
     cases = []
     def mk(cls, names, x, T):
         return {'kind': 'wrap', 'cls': cls, 'chems': list(names), 'x': x, 'T': T,
@@ -260,6 +263,32 @@ def gen_cases(rng, tier):
         n = rng.randint(1, 5)
         cases.append({'kind': 'ideal', 'chems': rng.sample(GROUPED + NOGROUP, n), 'x': [rng.choice(XA) for _ in range(n)],
                       'T': rng.choice(TS)})
+    # histories on one object: call, rewrite the same array in place, call again at the same T, .f, copies
+    def pos_x(n):
+        k = [rng.randint(1, 5) for _ in range(n)]
+        while sum(k) != 16:
+            i = rng.randrange(n)
+            if sum(k) < 16: k[i] += 1
+            elif k[i] > 1: k[i] -= 1
+        return [ki / 16 for ki in k]
+    for h in range(15 if tier == 'quick' else 160):
+        n = rng.choice([2, 3, 3, 4])
+        ng = rng.choice([0, 0, 1]) if n > 2 else 0
+        names = rng.sample(GROUPED, n - ng) + rng.sample(NOGROUP, ng)
+        rng.shuffle(names)
+        T = rng.choice(TS)
+        na = rng.choice([1, 1, 2])
+        ops = [['call', 0, True, T], ['set', 0, pos_x(n)], ['call', 0, True, T]] if h % 2 == 0 else []
+        for _ in range(rng.randint(2, 5)):
+            r = rng.randrange(na)
+            k = rng.choice(['call', 'call', 'callcopy', 'f', 'set', 'set'])
+            Tk = T if rng.random() < 0.8 else rng.choice(TS)
+            if k == 'call': ops.append(['call', r, True, Tk])
+            elif k == 'callcopy': ops.append(['call', r, False, Tk])
+            elif k == 'f': ops.append(['f', r, Tk])
+            else: ops.append(['set', r, pos_x(n)])
+        cases.append({'kind': 'hist', 'cls': CLASSES[h % 3], 'chems': names, 'arrays': [pos_x(n) for _ in range(na)],
+                      'ops': ops, 'si': gen_si(rng), 'quant': rng.choice([64, 16])})
     for c in cases:
         if c['kind'] == 'wrap' and c['xkind'] == 'int':
             c['x'] = [float(int(abs(v)) if abs(v) >= 1 else (1 if v else 0)) for v in c['x']]
@@ -281,25 +310,55 @@ def fmat(a):
 def fvec(a):
     return [fr_json(fx(v)) for v in a]
 
+def all_slots(G):
+    names = []
+    for k in type(G).__mro__:
+        sl = k.__dict__.get('__slots__', ())
+        names += [sl] if isinstance(sl, str) else list(sl)
+    return list(dict.fromkeys(names))
+
+class exact_session:
+    """Swap the array attributes of G for exact (XQ) arrays; on exit restore EVERY attribute the object has
+    (declared slots and, if present, __dict__), so that whatever per-object state an exact run leaves behind
+    (e.g. a memo of the last call holding XQ values) never leaks into later real calls."""
+    def __init__(s, G, quant): s.G = G; s.quant = quant
+    def __enter__(s):
+        G = s.G
+        s.names = all_slots(G)
+        s.saved = {n: getattr(G, n) for n in s.names if hasattr(G, n)}
+        s.dict = dict(G.__dict__) if hasattr(G, '__dict__') else None
+        for n in ARG_SLOTS:
+            if n != '_index': setattr(G, n, toX(s.saved[n], s.quant))
+        return s
+    def __exit__(s, *a):
+        G = s.G
+        for n in s.names:
+            if n in s.saved: setattr(G, n, s.saved[n])
+            elif hasattr(G, n):
+                try: delattr(G, n)
+                except Exception: pass
+        if s.dict is not None:
+            G.__dict__.clear(); G.__dict__.update(s.dict)
+
+def exact_data(G):
+    inter = G._interactions
+    return {'inter': fmat(inter) if inter.ndim == 2 else [fmat(r) for r in inter],
+            'gpsis': fmat(G._group_psis), 'mask': [[bool(b) for b in r] for r in G._group_mask],
+            'qs': fvec(G._qs), 'rs': fvec(G._rs), 'Qs': fvec(G._Qs), 'chemgroups': fmat(G._chemgroups),
+            'cQfs': fmat(G._chem_Qfractions), 'index': [int(i) for i in G._index]}
+
+def xarray(vals):
+    x = np.empty(len(vals), dtype=object)
+    for i, v in enumerate(vals): x[i] = XQ(F(v))
+    return x
+
 def exact_call(G, case):
     """G(x, T) on exact Fractions through the py_funcs.  Returns (obs dict, data dict)."""
     XQ.SI = [(k, F(a), F(b)) for k, a, b in case['si']]
-    saved = {s: getattr(G, s) for s in ARG_SLOTS}
-    xs = [XQ(F(v)) for v in case['x']]
-    if case['xkind'] == 'f64':
-        x = np.empty(len(xs), dtype=object)
-        for i, v in enumerate(xs): x[i] = v
-    else:
-        x = list(xs)
-    data = {}
-    try:
-        for s in ARG_SLOTS:
-            setattr(G, s, toX(saved[s], case['quant']) if s != '_index' else saved[s])
-        inter = G._interactions
-        data = {'inter': fmat(inter) if inter.ndim == 2 else [fmat(r) for r in inter],
-                'gpsis': fmat(G._group_psis), 'mask': [[bool(b) for b in r] for r in G._group_mask],
-                'qs': fvec(G._qs), 'rs': fvec(G._rs), 'Qs': fvec(G._Qs), 'chemgroups': fmat(G._chemgroups),
-                'cQfs': fmat(G._chem_Qfractions), 'index': [int(i) for i in G._index]}
+    x = xarray(case['x'])
+    if case['xkind'] != 'f64': x = list(x)
+    with exact_session(G, case['quant']):
+        data = exact_data(G)
         with patched(True):
             try:
                 g = G(x, XQ(F(case['T'])))
@@ -310,9 +369,32 @@ def exact_call(G, case):
                 obs = {'err': 'Unbound'}
         inter_after = G._interactions
         obs['inter_untouched'] = (fmat(inter_after) if inter_after.ndim == 2 else [fmat(r) for r in inter_after]) == data['inter']
-    finally:
-        for s in ARG_SLOTS: setattr(G, s, saved[s])
     return obs, data
+
+def exact_hist(G, case):
+    """a history of calls / .f calls / in-place rewrites on ONE object, on exact Fractions"""
+    XQ.SI = [(k, F(a), F(b)) for k, a, b in case['si']]
+    arrays = [xarray(a) for a in case['arrays']]
+    outs = []
+    with exact_session(G, case['quant']):
+        data = exact_data(G)
+        with patched(True):
+            for op in case['ops']:
+                try:
+                    if op[0] == 'set':
+                        arrays[op[1]][:] = xarray(op[2]); outs.append(None); continue
+                    arr = arrays[op[1]]
+                    if op[0] == 'call':
+                        g = G(arr if op[2] else list(arr), XQ(F(op[3])))
+                    else:
+                        g = G.f(arr, XQ(F(op[2])), *G.args)
+                    outs.append(fvec(g))
+                except ZeroDivisionError:
+                    outs.append('ZeroDiv')
+                except UnboundLocalError:
+                    outs.append('Unbound')
+        final = {'arrays': [fvec(a) for a in arrays], 'gpsis': fmat(G._group_psis)}
+    return outs, final, data
 
 def close(a, b, tol):
     a = np.asarray(a, float); b = np.asarray(b, float)
@@ -390,6 +472,10 @@ def _run_impl(case):
                 'pcf': fr_json(frac(pc(case['T'], 101325.))), 'x_same': bool(np.array_equal(x, x0))}
     G = build(case)
     out = {'nidx': n_with_groups(case), 'is_ideal': type(G) is ac.IdealActivityCoefficients}
+    if case['kind'] == 'hist':
+        if not out['is_ideal']:
+            out['outs'], out['final'], out['data'] = exact_hist(G, case)
+        return out
     if out['is_ideal']:
         x = real_x(case); before = x_values(x)
         g = G(x, case['T'])
@@ -436,6 +522,27 @@ def _coq_case(case, out):
         return (f'(chk_ideal {cnat(len(case["x"]))} {cqv(out["act"])} {q(F(out["f"]))} {q(F(out["fug"]))} '
                 f'{q(F(out["fugf"]))} {q(F(out["pcf"]))} && {cbool(out["x_same"])})')
     kind = f'chk_new_kind {cnat(out["nidx"])} {cbool(out["is_ideal"])}'
+    if case['kind'] == 'hist':
+        if out['is_ideal']:
+            return f'({kind})'
+        d = out['data']
+        def cop(o):
+            if o[0] == 'set': return f'(QSet {cnat(o[1])} {qlist(o[2])})'
+            if o[0] == 'call': return f'(QCall {cnat(o[1])} {cbool(o[2])} {q(o[3])})'
+            return f'(QF {cnat(o[1])} {q(o[2])})'
+        def chob(o):
+            if o is None: return 'HNone'
+            if o == 'ZeroDiv': return 'HZeroDiv'
+            if o == 'Unbound': return 'HUnbound'
+            return f'(HVals {cqv(o)})'
+        fn = 'chk_hist_unifac' if case['cls'] == 'UNIFAC' else 'chk_hist_modified'
+        inter = cqm(d['inter']) if case['cls'] == 'UNIFAC' else cqm3(d['inter'])
+        anyz = any(o in ('ZeroDiv',) for o in out['outs'])
+        return (f'({kind} && {fn} {csi(case["si"])} {inter} {cqm(d["gpsis"])} {cbm(d["mask"])} {cqv(d["qs"])} {cqv(d["rs"])} '
+                f'{cqv(d["Qs"])} {cqm(d["chemgroups"])} {cqm(d["cQfs"])} {clist(d["index"], cnat)} '
+                f'{clist([qlist(a) for a in case["arrays"]])} {clist([cop(o) for o in case["ops"]])} '
+                f'{clist([chob(o) for o in out["outs"]])} {clist([cqv(a) for a in out["final"]["arrays"]])} '
+                f'{cqm(out["final"]["gpsis"])} {cbool(anyz)})')
     if out['is_ideal']:
         n = len(case['x'])
         return (f'({kind} && chk_ideal {cnat(n)} {cqv(out["gamma"])} {q(F(out["f"]))} 1 1 1 && {cbool(out["x_same"])})')
@@ -473,6 +580,8 @@ def nontrivial(case, out):
         return (not out.get('is_ideal', True)) and 'gamma' in out.get('obs', {})
     if case['kind'] == 'lgc':
         return out.get('values') is not None
+    if case['kind'] == 'hist':
+        return any(isinstance(o, list) for o in out.get('outs', []))
     return True
 
 def classify(case, out):
@@ -487,6 +596,8 @@ def classify(case, out):
                 ks.append('x-after:' + ('changed' if [F(s) for s in out['obs']['x_after']] != [F(v) for v in case['x']] else 'same'))
             ks.append('jit:' + str(out['real']['jit_agrees']))
         ks += ['standin:%d%d%d' % tuple(s[0] for s in case['si'])]
+    if case['kind'] == 'hist':
+        ks += ['cls:' + case['cls'], 'hist-ops:%d' % len(case['ops'])] + ['hop:' + o[0] + (':alias' if o[0] == 'call' and o[2] else '') for o in case['ops']]
     if 'oracle' in out:
         ks.append('oracle:' + ('holds' if out['oracle'] is None else out['oracle'].split(':')[0]))
     return ks
@@ -504,9 +615,60 @@ def safe_eval(G, x, T):
     return np.asarray(G(x, T), float)
 
 def oracle(case):
+    """never raises: an exception inside the implementation (or an object left in a state the real calls cannot
+    handle) is reported as a violation message"""
+    try:
+        return _oracle(case)
+    except Exception as ex:
+        return (f'raises: {case.get("cls", case["kind"])} model on {case.get("chems")}: {type(ex).__name__}: '
+                f'{str(ex)[:200]}')
+
+def reuse_buffer_check(G, cls, names, comps, T):
+    """obj(x, T) with ONE float64 buffer rewritten in place between calls at the same T must equal
+    obj.f(x, T, *obj.args) and obj(fresh copy, T) at every step, and leave the buffer alone."""
+    x = np.empty(len(comps[0]))
+    for k, comp in enumerate(comps):
+        x[:] = comp
+        keep = x.copy()
+        g_obj = np.asarray(G(x, T), float)
+        g_fun = np.broadcast_to(np.asarray(G.f(x.copy(), T, *G.args), float), g_obj.shape)
+        g_new = np.asarray(G(x.copy(), T), float)
+        if not np.array_equal(x, keep):
+            return f'x-modified: {cls} model on {names}: reused buffer {keep.tolist()} became {x.tolist()}'
+        if not close(g_obj, g_fun, 1e-12):
+            return (f'history: {cls} model on {names}, one buffer rewritten in place, call {k} at T={T}, x={keep.tolist()}: '
+                    f'obj(x, T) = {g_obj.tolist()} but obj.f(x, T, *obj.args) = {g_fun.tolist()} (hidden per-object state)')
+        if not close(g_obj, g_new, 1e-12):
+            return (f'history: {cls} model on {names}, one buffer rewritten in place, call {k} at T={T}: obj(x, T) = '
+                    f'{g_obj.tolist()} but obj(x.copy(), T) = {g_new.tolist()} (hidden per-object state)')
+    return None
+
+def _oracle(case):
     e = env(); ac = e['ac']; eq = e['eq']
     if case['kind'] == 'lgc':
         return None
+    if case['kind'] == 'hist':
+        G = build(case)
+        cls = case['cls']
+        arrays = [np.array(a, float) for a in case['arrays']]
+        for k, op in enumerate(case['ops']):
+            if op[0] == 'set':
+                arrays[op[1]][:] = op[2]; continue
+            arr = arrays[op[1]]; keep = arr.copy()
+            T = op[3] if op[0] == 'call' else op[2]
+            if op[0] == 'call':
+                g = np.asarray(G(arr if op[2] else list(arr), T), float)
+            else:
+                g = np.asarray(G.f(arr, T, *G.args), float)
+            ref = np.broadcast_to(np.asarray(G.f(keep.copy(), T, *G.args), float), (len(keep),))
+            g = np.broadcast_to(g, (len(keep),))
+            if not np.array_equal(arr, keep):
+                return f'x-modified: {cls} model on {case["chems"]}: step {k} changed the caller\'s array'
+            if not close(g, ref, 1e-12):
+                return (f'history: {cls} model on {case["chems"]}: step {k} ({op[0]}) at T={T}, x={keep.tolist()} returns '
+                        f'{g.tolist()} but the state-free obj.f on a fresh array gives {ref.tolist()} (hidden per-object state)')
+        comps = [a for a in case['arrays']] + [op[2] for op in case['ops'] if op[0] == 'set']
+        return reuse_buffer_check(G, cls, case['chems'], comps, case['ops'][0][-1] if case['ops'][0][0] != 'set' else 335.)
     if case['kind'] == 'ideal':
         chems = [e['chems'][n] for n in case['chems']]
         x = np.array(case['x'], float); x0 = x.copy()
@@ -532,7 +694,7 @@ def oracle(case):
         return f'x-modified: {cls} model on {case["chems"]}: caller\'s x {x0.tolist()} became {x.tolist()}'
     if ideal:
         if not np.all(g == 1.): return 'ideal-fallback: not all ones'
-        return None
+        return reuse_buffer_check(G, cls, case['chems'], [x0, np.roll(x0, 1)], T)
     idx = [int(i) for i in G._index]
     # 2. no group data => exactly one
     for i in range(n):
@@ -547,6 +709,11 @@ def oracle(case):
     if np.any(x0 < 0) or x0.sum() == 0: return None
     xs = x0 / x0.sum()
     if float(np.sum(xs[idx])) == 0.: return None
+    # 3b. no hidden state: one buffer rewritten in place between calls at the same T
+    comps = [xs, np.roll(xs, 1), (xs + np.roll(xs, 1)) / 2, xs]
+    comps = [c for c in comps if float(np.sum(c[idx])) != 0.]
+    msg = reuse_buffer_check(G, cls, case['chems'], comps, T)
+    if msg: return msg
     # 4. pure limit: gamma_i -> 1 as x_i -> 1
     for i in idx:
         v = np.zeros(n); v[i] = 1.
